@@ -617,3 +617,126 @@ class SoftwareVersion:
                 and result.buffer_size == g_arg2 % 65536 and result.build_date == g_arg3
                 and result.version_string == 101 and result.version == 102 and result.software_version_labels == 103
                 and self_post._scp_data_length == self._scp_data_length)
+
+
+# ---- get_processor_status: which block of which chip is read (fragment: its first two statements) ------------------------------------
+def _ps_structs_getitem(E, obj, args, kwargs, st, node):
+    return [(st, ObjV("OpaqueStruct", {"size": st.env["g_size"]}), None)]
+
+
+def _ps_read_struct_field(E, obj, args, kwargs, st, node):
+    s = st.copy()
+    s.trace = ListV(s.trace.items + (("read_struct_field",) + tuple(args) + tuple(sorted(kwargs.items())),))
+    return [(s, st.env["g_base"], None)]
+
+
+def _ps_read(E, obj, args, kwargs, st, node):
+    s = st.copy()
+    s.trace = ListV(s.trace.items + (("read",) + tuple(args) + tuple(sorted(kwargs.items())),))
+    return [(s, ObjV("Bytes", {"ident": 5}), None)]
+
+
+@contract("rig/machine_control/machine_controller.py::MachineController.get_processor_status@seq:0:2")
+class ProcessorStatusBlock:
+    """the status reported for core p of chip (x, y) is decoded from exactly that core's block: the chip's OWN vcpu_base (read from
+    that chip) + p whole blocks, one whole block long, read from that chip through its monitor (core 0)"""
+    properties = ("C14",)
+    params = dict(self=TRec("MachineController", structs=TRec("OpaqueStructs")), p=TInt(0, 17), x=TInt(0, 255), y=TInt(0, 255),
+                  g_size=TInt(1, 4096), g_base=TInt(0, 2 ** 32 - 1))
+    fragment_result = ("address", "data")
+    fragment_head = "address = ..."
+    externals = {"OpaqueStructs.__getitem__": _ps_structs_getitem, "MachineController.read_struct_field": _ps_read_struct_field,
+                 "MachineController.read": _ps_read}
+    assumptions = ["the struct definitions are opaque: structs[b'vcpu'].size is a ghost input; read_struct_field (contract ReadStructField_word, C07) "
+                   "returns the chip's vcpu base (ghost) and read (contract MCRead, C07) the block's bytes (opaque): both recorded"]
+
+    def native(x):
+        raise __import__("pyvc.replay", fromlist=["OutsideHarness"]).OutsideHarness()
+
+    def ensures_this_cores_block_of_this_chip(p, x, y, g_size, g_base, result, _trace):
+        return (len(_trace) == 2 and _trace[0] == ("read_struct_field", "sv", "vcpu_base", x, y)
+                and _trace[1] == ("read", g_base + g_size * p, g_size, x, y)
+                and result[0] == g_base + g_size * p and result[1].ident == 5)
+
+
+# ---- the small probes: the chip asked is the chip named ------------------------------------------------------------------------------
+def _sp_chip_info(E, obj, args, kwargs, st, node):
+    s = st.copy()
+    s.trace = ListV(s.trace.items + (("get_chip_info",) + tuple(args) + tuple(sorted(kwargs.items())),))
+    return [(s, ObjV("ChipInfo", {"working_links": ObjV("LinkSet", {"ident": 8}), "ip_address": ObjV("Str", {"ident": 9}),
+                                   "ethernet_up": st.env["g_up"]}), None)]
+
+
+@contract("rig/machine_control/machine_controller.py::MachineController.get_working_links")
+class WorkingLinks:
+    """the working links reported for a chip are the ones that chip's own probe reports"""
+    properties = ("C14",)
+    params = dict(self=TRec("MachineController"), x=TInt(0, 255), y=TInt(0, 255), g_up=TBool())
+    externals = {"MachineController.get_chip_info": _sp_chip_info}
+    options = {"decorators": {"use_contextual_arguments": "identity"}}
+    assumptions = ["get_chip_info (its own contract) is recorded and returns an opaque description; use_contextual_arguments as the identity (C18)"]
+
+    def native(x):
+        raise __import__("pyvc.replay", fromlist=["OutsideHarness"]).OutsideHarness()
+
+    def ensures_of_the_chip_named(x, y, result, _trace):
+        return len(_trace) == 1 and _trace[0] == ("get_chip_info", x, y) and result.ident == 8
+
+
+@contract("rig/machine_control/machine_controller.py::MachineController.get_ip_address")
+class IpAddress:
+    """the address reported for a chip is that chip's own, and None exactly when its Ethernet link is down"""
+    properties = ("C14", "C18")
+    params = dict(self=TRec("MachineController"), x=TInt(0, 255), y=TInt(0, 255), g_up=TBool())
+    externals = {"MachineController.get_chip_info": _sp_chip_info}
+    options = {"decorators": {"use_contextual_arguments": "identity"}}
+    assumptions = ["get_chip_info (its own contract) is recorded and returns an opaque description; use_contextual_arguments as the identity (C18)"]
+
+    def native(x):
+        raise __import__("pyvc.replay", fromlist=["OutsideHarness"]).OutsideHarness()
+
+    def ensures_of_the_chip_named_and_none_iff_the_link_is_down(x, y, g_up, result, _trace):
+        return (len(_trace) == 1 and _trace[0] == ("get_chip_info", ("x", x), ("y", y))
+                and implies(g_up, result is not None and result.ident == 9) and implies(not g_up, result is None))
+
+
+@contract("rig/machine_control/machine_controller.py::MachineController.get_num_working_cores")
+class NumWorkingCores:
+    """the core count reported for a chip is that chip's own system variable num_cpus"""
+    properties = ("C14",)
+    params = dict(self=TRec("MachineController"), x=TInt(0, 255), y=TInt(0, 255), g_size=TInt(1, 4096), g_base=TInt(0, 18))
+    externals = {"MachineController.read_struct_field": _ps_read_struct_field}
+    options = {"decorators": {"use_contextual_arguments": "identity"}}
+    assumptions = ["read_struct_field (contract ReadStructField_word, C07) is recorded and returns the value read (ghost)"]
+
+    def native(x):
+        raise __import__("pyvc.replay", fromlist=["OutsideHarness"]).OutsideHarness()
+
+    def ensures_of_the_chip_named(x, y, g_base, result, _trace):
+        return len(_trace) == 1 and _trace[0] == ("read_struct_field", "sv", "num_cpus", x, y) and result == g_base
+
+
+def _io_read_vcpu(E, obj, args, kwargs, st, node):
+    s = st.copy()
+    s.trace = ListV(s.trace.items + (("read_vcpu_struct_field",) + tuple(args) + tuple(sorted(kwargs.items())),))
+    return [(s, st.env["g_first"], None)]
+
+
+@contract("rig/machine_control/machine_controller.py::MachineController.get_iobuf_bytes@seq:0:3")
+class IobufStart:
+    """where a core's console buffer starts: the block size is the CHIP's system variable iobuf_size, the first block the address
+    in THIS core's own vcpu field iobuf (of this chip), and the text starts empty"""
+    properties = ("C14",)
+    params = dict(self=TRec("MachineController"), p=TInt(0, 17), x=TInt(0, 255), y=TInt(0, 255), g_base=TInt(1, 65536), g_first=TInt(0, 2 ** 32 - 1), g_size=TInt(1, 2))
+    fragment_result = ("iobuf_size", "address", "iobuf")
+    fragment_head = "iobuf_size = ..."
+    externals = {"MachineController.read_struct_field": _ps_read_struct_field, "MachineController.read_vcpu_struct_field": _io_read_vcpu}
+    assumptions = ["read_struct_field / read_vcpu_struct_field (contracts of C07) are recorded and return the values read (ghosts)"]
+
+    def native(x):
+        raise __import__("pyvc.replay", fromlist=["OutsideHarness"]).OutsideHarness()
+
+    def ensures_this_chips_block_size_and_this_cores_chain(p, x, y, g_base, g_first, result, _trace):
+        return (len(_trace) == 2 and _trace[0] == ("read_struct_field", "sv", "iobuf_size", x, y)
+                and _trace[1] == ("read_vcpu_struct_field", "iobuf", x, y, p)
+                and result[0] == g_base and result[1] == g_first and seq_len(result[2]) == 0)
